@@ -293,12 +293,17 @@ class PlanJoinTablesQuery:
 
             join = None
             use_limit = True
+            table_seen = False
             for item in join_sequence:
                 if isinstance(item, TableInfo):
                     if item.predictor_info is None and item.sub_select is None:
+                        table_seen = True
                         if join is not None:
                             if join.join_type.upper() != 'LEFT JOIN':
                                 use_limit = False
+                    elif item.sub_select is not None and not table_seen:
+                        # the limit goes to the first table that is fetched: after a sub-select it is not the first member of the join
+                        use_limit = False
                 elif isinstance(item, Join):
                     join = item
         self.query_context['use_limit'] = use_limit
